@@ -260,6 +260,42 @@ def scenario(params, ch):
             e = app_send(w, mon, sender, data, retry)
             if e is not None:
                 ch.flag("send-raises", "send raised %s" % type(e).__name__, repr(e))
+        if blackout and blackout[0] == "idcollide":
+            # message A (already queued above, unretried) loses its middle fragment and stays half reassembled; traffic
+            # goes on (other fragmented messages arrive) for longer than the expiry of that context; then the sender's
+            # fragment id counter comes round again (set directly: 65535 messages later) and message B gets A's id
+            from mpgameserver.connection import SeqNum
+            sc_ = w.clients[0].conn if sender == "c" else w.server_conn(0)
+            a_id = int(sc_.seq_fragment)
+            src = "s" if sender == "s" else "c0"
+            w.fates = []
+
+            def rule(w_, d):
+                if d.src != src:
+                    return False
+                for seq, t, pl in (open_datagram(w_, d) or []):
+                    if t == 7 and len(pl) >= 6:
+                        fid, idx, cnt = struct.unpack(">HHH", pl[:6])
+                        if fid == a_id and idx == 2 and not getattr(w_, "_a_done", False):
+                            return True
+                return False
+            w.drop_rule = rule
+            w.run(12)
+            w._a_done = True
+            for k in range(blackout[1]):
+                filler = payload(40 + k, 1700)
+                sent.append((filler, "none"))
+                app_send(w, mon, sender, filler, "none")
+                w.run(int(1.2 * 64))
+            sc_.seq_fragment = SeqNum(a_id - 1 if a_id > 1 else 65535)
+            b_msg = payload(77, len(sent[0][0]))
+            sent.append((b_msg, "none"))
+            app_send(w, mon, sender, b_msg, "none")
+            w.run(40)
+            if mon.delivered[recv].get(b_msg, 0) < 1:
+                ch.flag("bytes", "a fragmented message that re-uses the fragment id of a long abandoned one is not delivered intact", "message B (%d bytes) not delivered; id %d" % (len(b_msg), a_id))
+            blackout = None
+            sent[0] = (sent[0][0], "lost-on-purpose")
         if blackout and blackout[0] == "hole+ack":
             # the full-size fragments are lost for a while, the small last fragment gets through but its acks are lost
             # too, and a burst of > 256 small messages moves the receiver's message window past it: later copies of
@@ -391,6 +427,10 @@ def fault_params(tier):
                     b = (d_dir if b[0] == "data" else a_dir, b[1], b[2])
                 for order, latency in cfgs:
                     out.append((direction, msgs, b, order, latency))
+        # (4 fillers 1.2 s apart: at least one fragment arrives after A's context has expired (1 + 3/2 s), as is
+        # necessarily the case before a fragment id can come round again)
+        out.append((direction, ((2600, "none"),), ("idcollide", 4), "cs", 1))
+        out.append((direction, ((2100, "none"),), ("idcollide", 5), "cs", 1))
         for size, ticks in ((5000, 100), (2500, 100), (5000, 160)):
             if tier == "quick" and ticks == 160:
                 continue
